@@ -272,7 +272,8 @@ InnerRep(inner, cls) ==
 Base(rep, cls) == IF rep.kind = "lazy" THEN InnerRep(rep.inner, cls) ELSE rep
 
 RepOK0(r, d) ==
-  CASE r.kind = "array"    -> (CASE r.flav = "native" -> TRUE [] r.flav = "bits" -> d \in NonNative [] r.flav = "ctor" -> d # "STRING")
+  CASE r.kind = "array"    -> (CASE r.flav = "native" -> TRUE [] r.flav = "bits" -> d \in NonNative [] r.flav = "ctor" -> d # "STRING"
+                                 [] r.flav = "sbits" -> d \in {"INT4", "INT2"} [] r.flav = "list" -> d = "STRING")
     [] r.kind = "packed"   -> d \in Numeric /\ BitWidth[d] \in {2, 4}
     [] r.kind = "proto"    -> r.field \in LegalField(d)
     [] r.kind = "external" -> d # "STRING"
@@ -282,15 +283,15 @@ RepOK(rep, d) == RepOK0(Base(rep, ClsOf(d)), d)
 ApplicableDef(rep, cls) == {d \in DTypesOf(cls) : RepOK(rep, d)}
 
 AllReps ==
-  {RArray(f) : f \in {"native", "bits", "ctor"}} \cup {RPacked, RTorch}
+  {RArray(f) : f \in {"native", "bits", "ctor", "sbits", "list"}} \cup {RPacked, RTorch}
   \cup {RProto(f) : f \in Fields}
   \cup {RExt(o, lg) : o \in OffKinds, lg \in BOOLEAN}
   \cup {RLazy("array", FALSE), RLazy("proto", TRUE), RLazy("external", FALSE), RLazy("packed", TRUE)}
 
-\* (constant tables, evaluated once by TLC)
-ApplicableT == [r \in AllReps, c \in Classes |-> ApplicableDef(r, c)]
+\* (constant tables, evaluated once by TLC; {x : x \in S} makes TLC enumerate the filtered set eagerly)
+ApplicableT == [r \in AllReps, c \in Classes |-> {d : d \in ApplicableDef(r, c)}]
 Applicable(rep, cls) == ApplicableT[rep, cls]
-RepsOfT == [c \in Classes |-> {r \in AllReps : ApplicableT[r, c] # {}}]
+RepsOfT == [c \in Classes |-> {r : r \in {q \in AllReps : ApplicableT[q, c] # {}}}]
 RepsOf(cls) == RepsOfT[cls]
 
 (***************************************************************************)
@@ -298,8 +299,13 @@ RepsOf(cls) == RepsOfT[cls]
 (***************************************************************************)
 NoStore == [codes |-> <<>>, bytes |-> <<>>, ints |-> <<>>, entries |-> <<>>, file |-> <<>>, off |-> 0, len |-> 0]
 
+\* array flavours: "native" = numpy / ml_dtypes element type; "ctor" = the same through ir.tensor(); "bits" = bit patterns in
+\* an unsigned container (uint8 / uint16); "sbits" = signed sub-byte values sign-extended in an int8 container (the
+\* stored byte is the two's complement image); "list" = a Python list of byte strings (STRING)
+SExt8(bits, c) == IF c >= 2 ^ (bits - 1) THEN c + 256 - 2 ^ bits ELSE c
 Stored0(r, t, d) ==
-  CASE r.kind \in {"array", "torch"} -> [NoStore EXCEPT !.codes = t.codes]
+  CASE r.kind = "array" /\ r.flav = "sbits" -> [NoStore EXCEPT !.codes = [i \in 1..t.n |-> SExt8(Bits(t.cls), t.codes[i])]]
+    [] r.kind \in {"array", "torch"} -> [NoStore EXCEPT !.codes = t.codes]
     [] r.kind = "packed" -> [NoStore EXCEPT !.bytes = Pack(t.cls, t.codes)]
     [] r.kind = "proto" ->
          (CASE r.field = "raw_data"    -> [NoStore EXCEPT !.bytes = Pack(t.cls, t.codes)]
@@ -313,8 +319,9 @@ Stored0(r, t, d) ==
 Stored(rep, t, d) == Stored0(Base(rep, t.cls), t, d)
 
 \* bytes returned by tobytes() / written by tofile(); only for HasBytes classes
+Low(cls, codes) == IF SubByte(cls) THEN [i \in 1..Len(codes) |-> codes[i] % (2 ^ Bits(cls))] ELSE codes
 RBytes0(r, t, s) ==
-  CASE r.kind \in {"array", "torch"} -> Pack(t.cls, s.codes)                        \* packs on demand
+  CASE r.kind \in {"array", "torch"} -> Pack(t.cls, Low(t.cls, s.codes))           \* masks and packs on demand
     [] r.kind = "packed" -> s.bytes
     [] r.kind = "proto" ->
          (CASE r.field = "raw_data"   -> s.bytes
@@ -326,7 +333,7 @@ RBytes(rep, t, d) == RBytes0(Base(rep, t.cls), t, Stored(rep, t, d))
 
 \* element patterns returned by numpy()
 RValues0(r, t, s) ==
-  CASE r.kind \in {"array", "torch"} -> s.codes
+  CASE r.kind \in {"array", "torch"} -> Low(t.cls, s.codes)
     [] r.kind = "proto" /\ r.field = "string_data" -> s.entries
     [] OTHER -> Unpack(t.cls, RBytes0(r, t, s), t.n)                                 \* unpacks on demand
 
